@@ -73,6 +73,12 @@ def gen_cases(ctx):
     for v_ in (-5e-324, -1e-300, -2.2250738585072014e-308, 5e-324):
         add(zip(FIELDS, (1.5, 3.0, 1.0, 2.0, v_)), meta={"near": True})
         n_near += 1
+    # the same field set twice with zeros of opposite sign (0.0 == -0.0: a setter that skips "unchanged" values keeps the first)
+    for f_ in FIELDS:
+        for z1, z2 in ((0.0, -0.0), (-0.0, 0.0)):
+            add([(g_, 0.0) for g_ in FIELDS] + [(f_, z1), (f_, z2)], meta={"near": True})
+            add([(f_, z1), (f_, z2)] + [(g_, 1.0) for g_ in FIELDS if g_ != f_], meta={"near": True})
+            n_near += 2
     ctx.stats["near_tie_tuples"] = n_near
     ctx.stats["lattice_tuples"] = len(sel)
     return cases
